@@ -11,6 +11,18 @@ long double poly_l1(const Poly& c) {
   for (i128 x : c) s += (long double)(x < 0 ? -x : x);
   return s;
 }
+long double poly_l2(const Poly& c) {
+  long double s = 0;
+  for (i128 x : c) s += (long double)x * (long double)x;
+  return sqrtl(s);
+}
+// documented worst-case error of one FFT64 product (C01): 8*log2(N)*2^-53*(|a|_1*|b|_2 + |a|_2*|b|_1)
+static long double c01_error(uint64_t n, const Poly& a, const Poly& b) {
+  int lg = 0;
+  while ((1ull << lg) < n) lg++;
+  if (lg < 1) lg = 1;
+  return 8.0L * lg * ldexpl(1.0L, -53) * (poly_l1(a) * poly_l2(b) + poly_l2(a) * poly_l1(b));
+}
 i128 poly_linf(const Poly& c) {
   i128 m = 0;
   for (i128 x : c) {
@@ -279,6 +291,7 @@ bool Model::admissible(const Call& c, std::string* why) const {
       }
       for (uint64_t i = 0; i < mn; ++i) {
         const MLimb* l = L(1, i);
+        if (l->tol > 0) continue;  // edge-of-budget product: compared within its documented error bound
         if (!mag_ok(l->mag, l->depth)) return fail("DFT value outside the exactness budget");
       }
       return true;
@@ -293,7 +306,12 @@ bool Model::admissible(const Call& c, std::string* why) const {
       uint64_t mn = c.sz[0] < c.sz[2] ? c.sz[0] : c.sz[2];
       for (uint64_t i = 0; i < mn; ++i) {
         if (linf_at(2, i) >= B50) return fail("coefficient >= 2^50");
-        if (!mag_ok(poly_l1(L(2, i)->c) * pp.limbs[0].mag, 1)) return fail("product outside budget");
+        if (c.p[3]) {
+          // documented 52-bit budget: min(|a|_1*|b|_inf, |a|_inf*|b|_1) < 2^52
+          long double b1 = poly_l1(L(2, i)->c) * (long double)poly_linf(pp.limbs[0].c), b2 = (long double)poly_linf(L(2, i)->c) * poly_l1(pp.limbs[0].c);
+          if (!((b1 < b2 ? b1 : b2) < ldexpl(1.0L, 52))) return fail("product outside the 52-bit budget");
+        } else if (!mag_ok(poly_l1(L(2, i)->c) * pp.limbs[0].mag, 1))
+          return fail("product outside budget");
       }
       return true;
     }
@@ -319,8 +337,10 @@ bool Model::admissible(const Call& c, std::string* why) const {
         const MLimb* a = L(1, i);
         if (c.op == OP_VMP_APPLY_DFT) {
           if (poly_linf(a->c) >= B50) return fail("coefficient >= 2^50");
-        } else if (a->depth + 1 > depth)
-          depth = a->depth + 1;
+        } else {
+          if (a->tol > 0) return fail("edge-of-budget value only flows to the inverse transform");
+          if (a->depth + 1 > depth) depth = a->depth + 1;
+        }
       }
       for (uint64_t j = 0; j < cols; ++j) {
         long double mag = 0;
@@ -336,6 +356,11 @@ bool Model::admissible(const Call& c, std::string* why) const {
     case OP_SMALL_PRODUCT: {
       if (ntt) return fail("not provided for NTT120");
       if (linf_at(1, 0) >= B50 || linf_at(2, 0) >= B50) return fail("coefficient >= 2^50");
+      if (c.p[3]) {
+        long double b1 = poly_l1(L(1, 0)->c) * (long double)poly_linf(L(2, 0)->c), b2 = (long double)poly_linf(L(1, 0)->c) * poly_l1(L(2, 0)->c);
+        if (!((b1 < b2 ? b1 : b2) < ldexpl(1.0L, 52))) return fail("product outside the 52-bit budget");
+        return true;
+      }
       if (!mag_ok(poly_l1(L(1, 0)->c) * poly_l1(L(2, 0)->c), 1)) return fail("product outside budget");
       return true;
     }
@@ -439,7 +464,11 @@ void Model::apply(const Call& c) {
     case OP_IDFT:
     case OP_IDFT_TMP_A: {
       uint64_t mn = c.sz[0] < c.sz[1] ? c.sz[0] : c.sz[1];
-      for (uint64_t i = 0; i < mn; ++i) out[i].c = SRC(1, i);
+      for (uint64_t i = 0; i < mn; ++i) {
+        out[i].c = SRC(1, i);
+        const MVal& sv = v[c.s[1]];
+        if (i < sv.limbs.size() && sv.limbs[i].tol > 0) out[i].tol = sv.limbs[i].tol + 0.5L;
+      }
       out_type = T_BIG;
       if (c.op == OP_IDFT_TMP_A)
         for (uint64_t i = 0; i < mn; ++i) invalidate.push_back({c.s[1], i});
@@ -460,6 +489,7 @@ void Model::apply(const Call& c) {
         pmul_acc(out[i].c, a, pp.limbs[0].c);
         out[i].mag = poly_l1(a) * pp.limbs[0].mag;
         out[i].depth = 1;
+        if (c.p[3]) out[i].tol = c01_error(n, a, pp.limbs[0].c);
       }
       out_type = T_DFT;
       break;
@@ -503,6 +533,7 @@ void Model::apply(const Call& c) {
       out.resize(1);
       out[0].c = pzero(n);
       pmul_acc(out[0].c, v[c.s[1]].limbs[0].c, v[c.s[2]].limbs[0].c);
+      if (c.p[3]) out[0].tol = c01_error(n, v[c.s[1]].limbs[0].c, v[c.s[2]].limbs[0].c) + 0.5L;
       out_type = T_ZV;
       break;
   }
